@@ -209,6 +209,9 @@ class CrashRun:
             if vk == "replace":
                 body, ct = make_body(r, nm, live[nm])
                 victim.update(body=body.decode("latin-1"), ctype=ct)
+                if r.random() < 0.4:
+                    # a conditional replace (If-Match with the current etag): its own code path in the stores
+                    victim["cond"] = True
         elif vk.startswith("meta_"):
             key = vk[5:]
             if key == "unset":
@@ -239,7 +242,10 @@ class CrashRun:
     def do_victim(self, st, backend, victim, state):
         k = victim["kind"]
         if k in ("create", "replace"):
-            return st.import_one(victim["name"], victim["ctype"], [victim["body"].encode("latin-1")])
+            kw = {}
+            if victim.get("cond") and victim["name"] in state["members"]:
+                kw["replace_etag"] = state["members"][victim["name"]][0]
+            return st.import_one(victim["name"], victim["ctype"], [victim["body"].encode("latin-1")], **kw)
         if k == "noop":
             etag, data = state["members"][victim["name"]]
             ct = "text/calendar" if victim["name"].endswith(".ics") else "text/vcard" if victim["name"].endswith(".vcf") else "application/octet-stream"
